@@ -4,3 +4,4 @@ pub mod gated;
 pub mod logworld;
 pub mod memstore;
 pub mod populate;
+pub mod ordstore;
